@@ -18,7 +18,7 @@ PROFILES = {
         "features": {"run.multi", "run.tab", "run.break", "run.link", "run.field", "para.heading", "list.flat", "list.nested", "table.simple", "table.multi-para-cell", "table.empty-cell",
                      "container.group", "unit.multi", "unit.empty", "excluded.speaker-notes", "excluded.header-footer", "excluded.comment"},
         "table_text_in_full_text": True, "unit_kind": "slide", "max_units": 4,
-        "opts": {"permute_parts": [False, True], "abs_targets": [False, False, True]},
+        "opts": {"permute_parts": [False, True], "abs_targets": [False, False, True], "layout": [None, None, "same"]},
         "residue_ignore": r"\b\d{1,3}\b",  # slide-number placeholders are deliberately kept by the extractor (class M)
     },
     "odt": {
@@ -63,7 +63,7 @@ PROFILES = {
         "features": FLOW_INLINE | {"run.ins", "run.comment-ref", "para.heading", "list.flat", "list.nested", "table.simple", "table.multi-para-cell", "table.empty-cell",
                                    "table.header-rows", "container.section", "excluded.comment", "unit.multi", "unit.empty"},
         "table_text_in_full_text": False, "unit_kind": "chapter", "max_units": 4, "unit_names": "Chapter ",
-        "opts": {"manifest_reversed": [False, True], "inline_removed": [False, False, "script", "style", "noscript"], "selfclose_empty_cells": [False, True]},
+        "opts": {"manifest_reversed": [False, True], "inline_removed": [False, False, "script", "style", "noscript"], "selfclose_empty_cells": [False, True], "chapter_names": [None, None, "odd"]},
     },
     "txt": {"sep_any": True, "ext": "txt", "render": lambda doc, **kw: simple.render_txt(doc, **kw), "features": {"run.multi", "run.tab", "run.break", "para.heading", "list.flat", "list.nested", "table.simple"},
             "table_text_in_full_text": True, "unit_kind": "single", "max_units": 1},
@@ -76,7 +76,7 @@ PROFILES = {
     "json": {"sep_any": True, "ext": "json", "render": lambda doc, **kw: simple.render_json(doc, **kw), "features": {"run.multi", "list.flat", "table.simple"},
              "table_text_in_full_text": True, "unit_kind": "single", "max_units": 1, "decoration": ["units", "lines"]},
     "pdf": {"ext": "pdf", "render": lambda doc, **kw: simple.render_pdf(doc, **kw), "features": {"run.multi", "run.break", "list.flat", "list.nested", "table.simple", "unit.multi", "unit.empty"},
-            "table_text_in_full_text": True, "unit_kind": "page", "max_units": 3},
+            "table_text_in_full_text": True, "unit_kind": "page", "max_units": 3, "opts": {"bare_blank_pages": [False, True]}},
     "eml": {"ext": "eml", "render": lambda doc, **kw: simple.render_eml(doc, **kw), "features": {"run.multi", "run.break", "list.flat", "table.simple"},
             "table_text_in_full_text": True, "unit_kind": "message", "max_units": 1},
     "mbox": {"ext": "mbox", "render": lambda doc, **kw: simple.render_mbox(doc, **kw), "features": {"run.multi", "run.break", "list.flat", "table.simple", "unit.multi"},
